@@ -34,7 +34,7 @@ def obligations(tier: str) -> list[Ob]:
             bounds={"media types": 8, "override targets": 4, "class_overrides": 5, "metadata flavours": 4},
         ),
         harness_ob(
-            "generate_all_tags", "C07_accounting.py", tier, funcs=["accounting_tags"], timeout=240 if q else 900, cpus=1, replay_func="vlib.props.C16:replay",
+            "generate_all_tags", "C07_accounting.py", tier, funcs=["accounting_tags"], timeout=330 if q else 900, cpus=1, replay_func="vlib.props.C16:replay",
             encoded=["openapi_python_client.parser.openapi:EndpointCollection.from_data"],
             stubs=["Endpoint.from_data -> arbitrary Endpoint | ParseError"],
         ),
